@@ -606,6 +606,20 @@ edn_value_t* edn_parse_text_block(edn_parser_t* parser) {
         }
     }
 
+    /* The block must end with its closing delimiter: running out of input after a
+     * complete line (or right after the opening line) is an unterminated block */
+    if (line_count == 0 || !lines[line_count - 1]->terminal) {
+        for (size_t j = 0; j < line_count; j++) {
+            free(lines[j]);
+        }
+        free(lines);
+        parser->error = EDN_ERROR_INVALID_STRING;
+        parser->error_message = "Unterminated text block (missing closing \"\"\")";
+        parser->error_start = value_start;
+        parser->error_end = parser->current;
+        return NULL;
+    }
+
     if (lwp == SIZE_MAX) {
         lwp = 0;
     }
